@@ -2,6 +2,7 @@ package checks
 
 import (
 	"fmt"
+	"os"
 	"runtime"
 	"strings"
 	"sync"
@@ -154,6 +155,10 @@ func c03Gen(c *vc.Ctx, emit func(c03Case)) {
 			return
 		}
 		seen[p.Src] = true
+		if strings.ContainsRune(p.Src, 0) {
+			c.Count("skipped_source_contains_nul", 1) // bash refuses such a file as binary: not a runnable program
+			return
+		}
 		if c03ExcludedSource(p.Src) {
 			c.Count("excluded_lone_trailing_backslash", 1)
 			return
@@ -180,17 +185,21 @@ func c03(c *vc.Ctx) {
 	slots := c03GetSlots()
 	c.Reruns = 2
 	c.Rule = "programs = (a) every string literal of interp/interp_test.go (extracted from the working tree) that parses as bash, (b) the generated family G_exec (mc/checks/c03_gen.go: " + c03GenDescribe(c) + "); each program is printed under " +
-		fmt.Sprintf("%d printer configurations (all option subsets x indents 0/2/4/8 that Print accepts) for the corpus and default-layout programs, %d representative ones (always Minify alone and SingleLine alone) for layout deviations", len(c03Configs(true)), len(c03Configs(false))) +
+		vc.Pick(c, fmt.Sprintf("%d representative printer configurations (default, each indent, each option alone incl. Minify alone and SingleLine alone, combinations)", len(c03Configs(false))), fmt.Sprintf("%d printer configurations (all option subsets x indents 0/2/4/8 that Print accepts) for the corpus and default-layout programs, %d representative ones (always Minify alone and SingleLine alone) for layout deviations", len(c03Configs(true)), len(c03Configs(false)))) +
 		"; outputs are deduplicated by bytes; per distinct printed text: interp(stdout,status) = interp of the original and bash(stdout,status) = bash of the original (interp is never compared with bash); distinct = distinct (program, printed text) pairs"
 	c.Assumptions = []string{
 		"bash 5.2.15 run as `bash file` with stdin empty, PATH restricted (no external commands for generated programs; cat sed grep tr sort wc head tail seq mkdir touch ls for the interpreter's test programs), HOME=/nonexistent, LC_ALL=C.utf8, cwd a fresh empty directory",
 		"a program whose original form does not parse, times out, or gives different results in repeated bash runs is skipped (counted); when the interpreter cannot run the original (fatal error) only the bash clause is judged",
 		"results of generated programs are cached per text (they cannot observe the scratch path); a failing case is always re-executed without the cache",
 	}
+	dry := os.Getenv("VERIF_C03_DRY") != "" // development aid: enumerate and print only
 	complete := vc.RunBatch(c, 16, func(emit func(c03Case)) { c03Gen(c, emit) }, func(batch []c03Case) []*vc.Fail {
 		slot := slots.get()
 		defer slots.put(slot)
 		out := make([]*vc.Fail, len(batch))
+		if dry {
+			return out
+		}
 		st := &c03OrigCache{}
 		for i, t := range batch {
 			out[i] = c03One(c, t, slot, st, len(batch) > 1)
